@@ -195,6 +195,12 @@ type Conn struct {
 	// writeBounded is set while the socket carries a write deadline put there
 	// for the write in progress (boundWrite); the next write clears both.
 	writeBounded int32
+
+	// encTableSizeLow is the smallest size the server asked for since the
+	// write loop last looked, or noTableSizeLow. Two changes between two
+	// requests may end where they started, and the encoder still has to
+	// announce the low point they went through (RFC 7541 4.2).
+	encTableSizeLow uint32
 }
 
 // setLastErr records the error that ended the connection, keeping the first one
@@ -262,6 +268,7 @@ func NewConn(c net.Conn, opts ConnOpts) *Conn {
 	// encoder goes on indexing into a table the server no longer has.
 	nc.encTableSize = defaultHeaderTableSize
 	nc.encTableSizeSeen = defaultHeaderTableSize
+	nc.encTableSizeLow = noTableSizeLow
 
 	return nc
 }
@@ -797,6 +804,10 @@ func (c *Conn) runWriteLoop() (lastErr error) {
 	}
 }
 
+// noTableSizeLow says that the server has not changed its header table size
+// since the write loop last looked.
+const noTableSizeLow = ^uint32(0)
+
 // writeGrace is how long a socket write gets to finish once somebody is
 // waiting for what it holds (see Ctx.lock and Close).
 const writeGrace = 2 * time.Second
@@ -1199,7 +1210,13 @@ func (c *Conn) writeRequest(ctx *Ctx) error {
 	// The server may have changed the header table size since the last request.
 	// The encoder is the write loop's, so this is the only safe place to apply
 	// it, and the encoder signals the change to the peer's decoder itself.
-	if size := atomic.LoadUint32(&c.encTableSize); size != c.encTableSizeSeen {
+	low := atomic.SwapUint32(&c.encTableSizeLow, noTableSizeLow)
+
+	if size := atomic.LoadUint32(&c.encTableSize); low != noTableSizeLow || size != c.encTableSizeSeen {
+		if low != noTableSizeLow {
+			c.enc.SetMaxTableSize(low)
+		}
+
 		c.encTableSizeSeen = size
 		c.enc.SetMaxTableSize(size)
 	}
@@ -1796,7 +1813,17 @@ func (c *Conn) handleSettings(st *Settings) {
 	atomic.StoreUint32(&c.maxFrameSize, c.serverS.MaxFrameSize())
 
 	// The encoder belongs to the write loop, so the new table size is handed
-	// over rather than applied here.
+	// over rather than applied here: the lowest value since the write loop last
+	// looked, then the current one.
+	if st.has(HeaderTableSize) {
+		for {
+			old := atomic.LoadUint32(&c.encTableSizeLow)
+			if st.tableSizeLow >= old || atomic.CompareAndSwapUint32(&c.encTableSizeLow, old, st.tableSizeLow) {
+				break
+			}
+		}
+	}
+
 	atomic.StoreUint32(&c.encTableSize, c.serverS.HeaderTableSize())
 
 	// A change to SETTINGS_INITIAL_WINDOW_SIZE applies to every stream that is
